@@ -6,7 +6,7 @@ From Coq Require Import String.
 From Coq Require Import List Bool Arith NArith ZArith.
 Import ListNotations.
 Require Import Str Rx RxFacts AsModel G_as_num TextModel TextProofs.
-Require Rx RxFacts RxLang AsToken.
+Require Rx RxFacts RxLang RxSub RxSubFacts AsToken.
 
 Theorem C11_block_preserved_for_every_hash_value :
   forall h asn : Z, (0 <= h)%Z -> (0 <= asn <= 4294967295)%Z ->
@@ -62,6 +62,27 @@ Theorem C11_finditer_reports_only_listed_whole_numbers :
   (Rx.eol s b = true \/ exists x, nth_error s b = Some x /\ Rx.in_cset x NOT_DIGIT = true).
 Proof. exact AsToken.as_finditer_reports_only_listed_whole_numbers. Qed.
 
+(* ... put together for the AS pass over a line with any callback: it rewrites exactly the listed whole numbers of the line and copies every other character *)
+Theorem C11_as_pass_rewrites_exactly_the_listed_whole_numbers :
+  forall (St : Type) (s : list Rx.chr) (nums : list (list Rx.chr)) (cb : St -> nat -> nat -> Rx.caps -> St * list Rx.chr) (st : St),
+  nums <> [] -> Forall (fun m => m <> []) nums -> Forall (fun m => forallb is_digit m = true) nums ->
+  let spans := RxFacts.finditer s (S (length s)) (as_rx nums) 0 in
+  snd (RxSub.sub_loop s (S (length s)) (as_rx nums) cb st 0) = RxSub.stitch s 0 spans (RxSubFacts.sub_reps s (S (length s)) (as_rx nums) cb st 0) /\
+  (forall a b, In (a, b) spans -> In (RxLang.sub s a b) nums /\
+     (a = 0%nat \/ ((1 <= a)%nat /\ exists x, nth_error s (a - 1) = Some x /\ Rx.in_cset x NOT_DIGIT = true)) /\
+     (Rx.eol s b = true \/ exists x, nth_error s b = Some x /\ Rx.in_cset x NOT_DIGIT = true)) /\
+  (forall n a, In n nums -> RxLang.occ s n a -> (a + length n <= length s)%nat ->
+     (a = 0%nat \/ ((1 <= a)%nat /\ exists x, nth_error s (a - 1) = Some x /\ Rx.in_cset x NOT_DIGIT = true)) ->
+     (Rx.eol s (a + length n) = true \/ exists x, nth_error s (a + length n) = Some x /\ Rx.in_cset x NOT_DIGIT = true) ->
+     In (a, (a + length n)%nat) spans).
+Proof.
+  intros St s nums cb st Hne Hnn Hd spans. split; [|split].
+  - apply RxSubFacts.sub_loop_is_stitch. now apply as_regex_non_nullable.
+  - intros a b H. exact (AsToken.as_finditer_reports_only_listed_whole_numbers s nums Hne Hnn (S (length s)) 0 a b (Nat.le_0_l _) H).
+  - intros n a Hin O L B A. apply (AsToken.as_finditer_reports_every_listed_whole_number s nums n a Hd Hnn Hin O L B A); [apply Nat.le_0_l|].
+    rewrite Forall_forall in Hnn. specialize (Hnn n Hin). destruct n; [contradiction|]. cbn [length] in L. Lia.lia.
+Qed.
+
 Example C11_range_ends : as_repl 0 65000 = AsOk 64512%Z /\ as_repl 1023 65000 = AsOk 65535%Z /\ as_repl 1024 65000 = AsOk 64512%Z.
 Proof. vm_compute. repeat split; reflexivity. Qed.
 
@@ -73,3 +94,4 @@ Print Assumptions C11_pattern_matches_only_listed_whole_numbers.
 Print Assumptions C11_a_listed_whole_number_is_matched_as_a_whole.
 Print Assumptions C11_finditer_reports_every_listed_whole_number.
 Print Assumptions C11_finditer_reports_only_listed_whole_numbers.
+Print Assumptions C11_as_pass_rewrites_exactly_the_listed_whole_numbers.
